@@ -163,6 +163,23 @@ fn get_filter_ranges(ast: &Ast) -> Vec<Result<Filter, Diagnostic>> {
     filter_visitor.ranges
 }
 
+#[cfg(feature = "verif-hooks")]
+pub(crate) fn verif_filter_ranges(ast: &Ast) -> Vec<crate::verif_hooks::FilterRange> {
+    get_filter_ranges(ast)
+        .into_iter()
+        .map(|entry| match entry {
+            Ok(filter) => crate::verif_hooks::FilterRange::Accepted {
+                global: filter.configuration.global,
+                lint: filter.configuration.lint,
+                severity: filter.configuration.variation.to_severity(),
+                comment_range: filter.comment_range,
+                range: filter.range,
+            },
+            Err(diagnostic) => crate::verif_hooks::rejected_from(&diagnostic),
+        })
+        .collect()
+}
+
 #[derive(Debug)]
 enum FilterInstruction {
     Push {
